@@ -305,16 +305,11 @@ class GitScm(Scm):
         if headValid:
             if not switch:
                 return
-            # if the workspace is already on the correct commit / tag do nothing
+            # If the workspace is already on the correct commit do nothing. A
+            # tag must be fetched first because the local tag may stem from a
+            # previously configured remote.
             if self.__commit:
                 if rev_parse.stdout.rstrip() == self.__commit:
-                    return
-            else:
-                # Convert tag to commit. Beware of annotated commits!
-                tag = await invoker.runCommand(["git", "rev-parse",
-                                "tags/"+self.__tag+"^0"],
-                                stdout=True, cwd=self.__dir)
-                if tag.returncode == 0 and tag.stdout == rev_parse.stdout:
                     return
 
         # There is no point in doing the extra dance of fetching commits
